@@ -81,3 +81,37 @@ Proof.
   - destruct (calculate_pre_fee_amount (fs_old_bps s) (fs_old_max s) post) as [v|e] eqn:E; [|discriminate].
     apply Ok_inj in H1; subst v. exact (prefee_covers _ _ _ _ _ Ho Hom Hp Hpre E H2).
 Qed.
+
+Lemma prefee_nonneg bps maxfee post pre : 0 <= post ->
+  calculate_pre_fee_amount bps maxfee post = Ok pre -> 0 <= pre.
+Proof.
+  intros Hp H. unfold calculate_pre_fee_amount in H.
+  destruct (bps =? 0); [apply Ok_inj in H; lia|].
+  destruct (post =? 0); [apply Ok_inj in H; lia|].
+  destruct (bps =? BPS_ONE).
+  { apply chko_inv in H as [-> Hr]. unfold in_u64, in_range in Hr. lia. }
+  apply bind_ok in H as (num & _ & H). apply bind_ok in H as (den & _ & H).
+  apply bind_ok in H as (raw & _ & H). apply bind_ok in H as (diff & _ & H).
+  destruct (maxfee <=? diff); apply chko_inv in H as [-> Hr]; unfold in_u64, in_range in Hr; lia.
+Qed.
+
+(* the emissions vault receives at least what the bank records as funded, and never more than was sent *)
+Lemma fund_emissions_covers has_fee s epoch balance amount sent recv :
+  0 <= fs_old_bps s <= 10000 -> 0 <= fs_new_bps s <= 10000 -> 0 <= fs_old_max s -> 0 <= fs_new_max s ->
+  0 <= amount ->
+  fund_emissions has_fee s epoch balance amount = Ok (sent, recv) ->
+  amount <= recv /\ recv <= sent /\ sent <= balance.
+Proof.
+  intros Ho Hn Hom Hnm Ha H. unfold fund_emissions in H.
+  apply bind_ok in H as (pre & Hpre & H).
+  destruct (balance <? pre) eqn:Eb; [discriminate|].
+  apply bind_ok in H as (fee & Hfee & H). apply Ok_inj in H.
+  assert (sent = pre /\ recv = pre - fee) as [-> ->] by (inversion H; auto).
+  destruct has_fee.
+  - destruct (calculate_epoch_fee s epoch pre) as [f|e] eqn:Ef; [|discriminate].
+    apply Ok_inj in Hfee; subst f.
+    assert (0 <= pre).
+    { unfold pre_fee_deposit_amount_at in Hpre. apply prefee_wrapper in Hpre. eapply prefee_nonneg; eauto. }
+    destruct (prefee_covers_every_epoch s epoch amount pre fee Ho Hn Hom Hnm Ha H0 Hpre Ef). lia.
+  - apply Ok_inj in Hpre. apply Ok_inj in Hfee. lia.
+Qed.
